@@ -252,6 +252,16 @@ def answer (line : String) : String :=
       if bad.isEmpty && el > 0 then s!"model={_impl} holds=1"
       else s!"model=options-not-passed-through:{",".intercalate bad} holds=0"
     | ["wirereq", method, desc] => KV.OracleGW.opWireReq method desc _impl
+    | ["defaults"] =>
+      let m := KV.Group.expectedDefaultsObservation
+      s!"model={m} holds={if m == _impl then 1 else 0}"
+    | ["coordaddr", host, port] =>
+      -- FindCoordinator answered (host, port): the next connect dials exactly that address
+      match port.toInt? with
+      | some p =>
+        let m := KV.Group.coordinatorAddress host p
+        s!"model={m} holds={if m == _impl then 1 else 0}"
+      | none => "bad-op"
     | ["hbwait", iv, el] =>
       -- the same observation while the generation waits to be picked up by Next
       match iv.toNat?, el.toNat?, _impl.toNat? with
